@@ -26,4 +26,36 @@ theorem restrict_idempotent (b : Book F) (keep : CellDef F → Bool) :
     restrictBook (restrictBook b keep) keep = restrictBook b keep := by
   simp [restrictBook]
 
+/-! ### every choice of outputs -/
+
+/-- the closure condition of `sub_model_equals_full` for one output address -/
+def ClosedFor (b : Book F) (keep : CellDef F → Bool) (s r c : Nat) : Prop :=
+  ∀ s' r' c', Reaches b (s, r, c) (s', r', c') → ∀ d ∈ b.cells, RelevantTo d s' r' c' → keep d = true
+
+omit [Num F] in
+/-- loading **more** than needed is harmless: a superset of a closed selection is closed -/
+theorem closed_mono (b : Book F) (keep keep' : CellDef F → Bool) (s r c : Nat)
+    (hsub : ∀ d, keep d = true → keep' d = true) (h : ClosedFor b keep s r c) : ClosedFor b keep' s r c :=
+  fun s' r' c' hr d hd hrel => hsub d (h s' r' c' hr d hd hrel)
+
+/-- **every choice of outputs gives the same values**: two sub-models, loaded for different output
+sets that both reach the address, agree on it (both equal the full model) -/
+theorem sub_models_agree (b : Book F) (keep keep' : CellDef F → Bool) (n s r c : Nat)
+    (h : ClosedFor b keep s r c) (h' : ClosedFor b keep' s r c) :
+    value (restrictBook b keep) n s r c = value (restrictBook b keep') n s r c := by
+  rw [sub_model_equals_full b keep n s r c h, sub_model_equals_full b keep' n s r c h']
+
+/-- the model loaded for the union of two output sets serves both -/
+theorem union_of_outputs (b : Book F) (k1 k2 : CellDef F → Bool) (n s r c : Nat)
+    (h : ClosedFor b k1 s r c ∨ ClosedFor b k2 s r c) :
+    value (restrictBook b (fun d => k1 d || k2 d)) n s r c = value b n s r c := by
+  apply sub_model_equals_full
+  rcases h with h | h
+  · exact closed_mono b k1 _ s r c (fun d hd => by simp [hd]) h
+  · exact closed_mono b k2 _ s r c (fun d hd => by simp [hd]) h
+
+omit [Num F] in
+/-- the full model is closed for every address (non-vacuity of `ClosedFor`) -/
+theorem closed_all (b : Book F) (s r c : Nat) : ClosedFor b (fun _ => true) s r c :=
+  fun _ _ _ _ _ _ _ => rfl
 end XL.C15
